@@ -87,6 +87,7 @@ fn verdict(stark: Fib<F, D>, p: StarkProofWithPublicInputs<F, C, D>, config: &St
 // public inputs / proof elements never yields an accepted proof
 #[test]
 fn c09_fibonacci_accept_reject() {
+    log::set_max_level(log::LevelFilter::Trace);   // log statements are part of the code under test: their arguments are evaluated at this level
     let mut bad = Vec::new();
     let mut cases = 0usize;
     let config = StarkConfig::standard_fast_config();
@@ -136,6 +137,7 @@ impl<F: RichField + Extendable<D>, const D: usize> Stark<F, D> for Unc<F, D> {
 // C18: the STARK verifier returns Err (never panics, never accepts) on malformed proofs
 #[test]
 fn c18_stark_malformed() {
+    log::set_max_level(log::LevelFilter::Trace);   // log statements are part of the code under test: their arguments are evaluated at this level
     let mut bad = Vec::new();
     let mut cases = 0usize;
     // the standard configuration, and configurations whose cap is lower than the blow-up (cap_height < rate_bits)
@@ -308,6 +310,7 @@ fn ctr_battery_cfg<const N: usize, const DEG: usize>(config: StarkConfig, bad: &
 // C09: acceptance does not depend on the width or the declared constraint degree; violating traces are never accepted
 #[test]
 fn c09_widths_and_degrees() {
+    log::set_max_level(log::LevelFilter::Trace);   // log statements are part of the code under test: their arguments are evaluated at this level
     let mut bad = Vec::new();
     let mut cases = 0usize;
     ctr_battery::<2, 1>(&mut bad, &mut cases);
@@ -400,11 +403,49 @@ fn c04_stark_transcript() {
         // messages sent later must not influence challenges drawn earlier
         for g in 0..*first { if c2[g] != base[g] { bad.push(format!("altered {what}: EARLIER challenge group {g} changed (the message is absorbed too early or the order is wrong)")); break; } }
     }
+    // the optional parts of the opening set (lookup / cross-table-lookup openings) are messages as well: on a proof that carries them, altering any of
+    // them must change the FRI batching challenge and everything after it (get_challenges does not validate the shape, so the forged shape is usable here)
+    {
+        let mut with_opt = proof.clone();
+        with_opt.proof.openings.auxiliary_polys = Some(vec![FE::ONE, FE::TWO]);
+        with_opt.proof.openings.auxiliary_polys_next = Some(vec![FE::TWO, FE::ONE]);
+        with_opt.proof.openings.ctl_zs_first = Some(vec![F::ONE, F::TWO]);
+        if let Some(b2) = chal(&with_opt, &config) {
+            let opt_muts: Vec<(&str, Box<dyn Fn(&mut StarkProofWithPublicInputs<F, C, D>)>)> = vec![
+                ("auxiliary opening", Box::new(|p| p.proof.openings.auxiliary_polys.as_mut().unwrap()[1] += FE::ONE)),
+                ("auxiliary next-row opening", Box::new(|p| p.proof.openings.auxiliary_polys_next.as_mut().unwrap()[0] += FE::ONE)),
+                ("first-row opening of a cross-table-lookup Z (ctl_zs_first)", Box::new(|p| p.proof.openings.ctl_zs_first.as_mut().unwrap()[1] += F::ONE)),
+                ("ctl_zs_first removed", Box::new(|p| p.proof.openings.ctl_zs_first = None)),
+            ];
+            for (what, m) in &opt_muts {
+                let mut p2 = with_opt.clone(); m(&mut p2);
+                cases += 1;
+                let Some(c2) = chal(&p2, &config) else { continue; };
+                for g in 2..6 { if c2[g] == b2[g] && !b2[g].is_empty() { bad.push(format!("altered {what}: challenge group {g} ({}) is unchanged", ["alphas", "zeta", "fri_alpha", "betas", "pow response", "query indices"][g])); break; } }
+            }
+        }
+    }
+    // the FRI reduction strategy, with its parameters, is part of the statement: configurations that differ only there must not share challenges
+    {
+        use plonky2::fri::reduction_strategies::FriReductionStrategy as S;
+        let strategies: Vec<(&str, S)> = vec![("Fixed([1, 1])", S::Fixed(vec![1, 1])), ("Fixed([2])", S::Fixed(vec![2])), ("Fixed([1, 1, 1])", S::Fixed(vec![1, 1, 1])), ("Fixed([])", S::Fixed(vec![])),
+            ("ConstantArityBits(4, 5)", S::ConstantArityBits(4, 5)), ("ConstantArityBits(3, 5)", S::ConstantArityBits(3, 5)), ("ConstantArityBits(4, 4)", S::ConstantArityBits(4, 4)),
+            ("MinSize(None)", S::MinSize(None)), ("MinSize(Some(3))", S::MinSize(Some(3))), ("MinSize(Some(4))", S::MinSize(Some(4)))];
+        let alphas: Vec<Option<Vec<u64>>> = strategies.iter().map(|(_, st)| { let mut c = config.clone(); c.fri_config.reduction_strategy = st.clone();
+            catch_unwind(AssertUnwindSafe(|| { let mut ch = Challenger::<F, PoseidonHash>::new(); ch.observe_elements(&proof.public_inputs); c.observe(&mut ch); ch.get_n_challenges(2).iter().map(|x| x.to_canonical_u64()).collect::<Vec<u64>>() })).ok() }).collect();
+        for i in 0..strategies.len() { for j in i + 1..strategies.len() {
+            cases += 1;
+            if let (Some(a), Some(b)) = (&alphas[i], &alphas[j]) { if a == b { bad.push(format!("configurations with reduction strategies {} and {} lead to the same transcript", strategies[i].0, strategies[j].0)); } }
+        } }
+    }
     // statement parameters: every configuration value is part of the transcript
     let mut cfgs: Vec<(&'static str, StarkConfig)> = Vec::new();
     { let mut c = config.clone(); c.security_bits += 1; cfgs.push(("security_bits", c)); }
     { let mut c = config.clone(); c.fri_config.proof_of_work_bits += 1; cfgs.push(("proof_of_work_bits", c)); }
     { let mut c = config.clone(); c.fri_config.num_query_rounds += 1; cfgs.push(("num_query_rounds", c)); }
+    { let mut c = config.clone(); c.num_challenges += 1; cfgs.push(("num_challenges", c)); }
+    { let mut c = config.clone(); c.fri_config.rate_bits += 1; cfgs.push(("rate_bits", c)); }
+    { let mut c = config.clone(); c.fri_config.cap_height -= 1; cfgs.push(("cap_height", c)); }
     for (what, cfg) in &cfgs {
         cases += 1;
         let Some(c2) = chal(&proof, cfg) else { continue; };
@@ -495,6 +536,7 @@ fn cheating_stark_proof(stark: Fib<F, D>, config: &StarkConfig, trace: Vec<Polyn
 
 #[test]
 fn c09_cheating_prover() {
+    log::set_max_level(log::LevelFilter::Trace);   // log statements are part of the code under test: their arguments are evaluated at this level
     let mut bad = Vec::new();
     let mut cases = 0usize;
     let config = StarkConfig::standard_fast_config();
